@@ -4,13 +4,14 @@
               (pos = 65536 * segment + byte offset; 2^40 + x for count/error/panic differences)
      kind 2 : the specification fails on the implementation's result
               (pos = 100 * segment + clause number of GsoSpec; 40 = panic, 41 = bytes outside
-              bufs[i][offset:offset+sizes[i]] were written, on a well-formed input) *)
+              bufs[i][offset:offset+sizes[i]] differ from the stale pattern the harness put there,
+              on a well-formed input) *)
 From Coq Require Import Uint63.
 From WG Require Import Base.Prelude Base.Ints Gen.Constants Offload.Bytes Offload.Checksum Offload.Gso Offload.GsoSpec.
 Local Open Scope N_scope.
 
 Record vcase := {
-  c_raw : list N; c_nbufs : N; c_room : N;
+  c_raw : list N; c_nbufs : N; c_room : N; c_gseed : N;
   c_panic : bool; c_touched : bool; c_n : N; c_err : N; c_segs : list (list N) }.
 
 (* Byte strings come packed 7 bytes per primitive integer. *)
@@ -45,9 +46,9 @@ Inductive case :=
 | CK (init : N) (b : list N) (o_nofold o_ck : N)
 | CP (proto : N) (src dst : list N) (tlen : N) (o_nofold : N).
 
-Definition mk (rawlen : N) (raw : list int) (nbufs room : N) (panic touched : bool) (n err : N)
+Definition mk (rawlen : N) (raw : list int) (nbufs room gseed : N) (panic touched : bool) (n err : N)
               (segs : list (N * list int)) : case :=
-  CV {| c_raw := unpackN rawlen raw; c_nbufs := nbufs; c_room := room;
+  CV {| c_raw := unpackN rawlen raw; c_nbufs := nbufs; c_room := room; c_gseed := gseed;
         c_panic := panic; c_touched := touched; c_n := n; c_err := err;
         c_segs := map (fun s => unpackN (fst s) (snd s)) segs |}.
 Definition w64 (hi lo : N) : N := hi * 4294967296 + lo.
@@ -77,7 +78,7 @@ Fixpoint segs_diff (a b : list (list N)) (i : N) : option N :=
 Definition P40 : N := 1099511627776.
 
 Definition model_diff (k : vcase) : option N :=
-  match handle_virtio_read (c_raw k) (c_nbufs k) (c_room k) with
+  match handle_virtio_read (c_raw k) (c_nbufs k) (c_room k) (c_gseed k) with
   | Panic => if c_panic k then None else Some (P40 + 1)
   | Done n e segs =>
       if c_panic k then Some (P40 + 2)
@@ -114,6 +115,7 @@ Definition spec_diff (k : vcase) : option N :=
           (* gso_type NONE without NEEDS_CSUM: the packet is passed through unchanged *)
           if (10 <=? len (c_raw k)) && (get8 (c_raw k) 1 =? 0) && (len (c_raw k) - 10 <=? c_room k) then
             if c_panic k then Some 40
+            else if c_touched k then Some 41
             else match c_segs k with
                  | [o] => if (c_err k =? 0) && (c_n k =? 1) && list_eqb o (sub (c_raw k) 10 (len (c_raw k)))
                           then None else Some 35
